@@ -7,10 +7,22 @@ ROOT = os.path.dirname(os.path.dirname(os.path.abspath(__file__)))
 
 # id -> (category, technique, level text, level note, design ref)
 CHECKS = {
+ "C01": ("exploration", "encode/decode round-trip monitor with reference-encoder tie, four message sources",
+         "Complete messages built by constructors, by completing templates, by the SML parser and by the decoder itself are encoded, decoded and compared field by field and byte by byte; the encoding is also tied to the intended message by the reference encoder. All stream/function pairs and every format at every length-byte boundary are covered on every run.",
+         "Judges item identity through the printed form and the bytes; trusts the reference encoder; sizes above ~2 MiB only in C13.",
+         "DESIGN.md §5 C01"),
  "C02": ("exploration", "reference-encoder monitor over exhaustive small formats, F4 bit-pattern sweep and generated trees",
          "Every ToBytes() call on generated/enumerated items and messages is compared byte-for-byte with an independent reference encoder; 1- and 2-byte formats and (thorough) all 2^32 F4 patterns are enumerated completely, wider formats by boundary+random values.",
          "Trusts the reference encoder in harness/internal/ref (self-tested against the repository's literal vectors on every run); says nothing about items outside the generated shapes/sizes.",
          "DESIGN.md §5 C02"),
+ "C03": ("fault_enumeration", "strict reference-decoder monitor; single-point fault enumeration of seed encodings; inputs presented with exact capacity and with stale buffer data behind the slice",
+         "Every truncation point, appended byte, structural byte value (all 255 alternatives) and payload byte fault of each seed encoding (<=160 bytes) is decoded by the real decoder and by a strict reference decoder; accept/reject and the decoded value must agree. Valid encodings with every non-minimal length form and unstructured bytes are added.",
+         "Trusts the reference decoder (internal/ref/decode.go); faults are single-point (plus targeted multi-byte ones), seeds are small generated messages.",
+         "DESIGN.md §5 C03"),
+ "C07": ("fault_enumeration", "child-process isolation (ulimit -v, watchdog, progress file) + per-call runtime.MemStats.TotalAlloc monitor",
+         "Every (format, length-byte count, declared length, bytes present, nesting depth) mismatch combination, all single-point faults of seed encodings, long legitimate items, list chains and random bytes are decoded in worker processes; an escaped panic, a worker abort (OOM, stack overflow) or an allocation above 1 MiB + 2048*len is a violation.",
+         "The allocation bound's constants are chosen with ~4x headroom over the costliest legitimate construct measured; time complexity is not judged; inputs above 16 MiB are not generated.",
+         "DESIGN.md §5 C07"),
 }
 
 NOT_YET = {}
